@@ -331,11 +331,30 @@ def tempMul (tab : TTable K) (a b : Opnd K) : Except Err (UnitV K) :=
   | .error e => .error e
   | .ok r => if offsetTemp (a.unit tab) || offsetTemp (b.unit tab) then .error .InvalidUnitOperation else .ok r
 
-/-- `divide`, `floor_divide` (`_divide_units` → `Unit.__truediv__`, then the array-level refusal) -/
+/-- `divide` (`_divide_units` → `Unit.__truediv__`, then the array-level refusal); also
+    `floor_divide` when the operands have different dimensions (the dispatcher's fall-back) -/
 def tempDivide (tab : TTable K) (a b : Opnd K) : Except Err (UnitV K) :=
   match UnitV.div (a.unit tab) (b.unit tab) with
   | .error e => .error e
   | .ok r => if offsetTemp (a.unit tab) || offsetTemp (b.unit tab) then .error .InvalidUnitOperation else .ok r
+
+/-- `floor_divide` (array.py `_floor_divide_units` and its place in `__array_ufunc__`): operands of
+    different dimensions fall back to `_divide_units`; two temperature operands go through the
+    rescaling block (second operand converted to the first's unit, with the `delta_` offset
+    refusal), then the rule divides the units — `Unit.__truediv__` refuses an offset on either side —
+    and the floored ratio is a pure number.  Result: the unit of the result and the factor applied to
+    the second operand before the kernel runs. -/
+def tempFloorDivide [Add K] [Sub K] [IsClose K] (tab : TTable K) (a b : Opnd K) :
+    Except Err (UnitV K × Option K) :=
+  match a, b with
+  | .temp u0, .temp u1 =>
+    match convSecond tab u0 u1 with
+    | .error e => .error e
+    | .ok c =>
+      match UnitV.div (toUnitV tab u0) (toUnitV tab u1) with
+      | .error e => .error e
+      | .ok _ => .ok (UnitV.dimensionless, c)
+  | _, _ => (tempDivide tab a b).map fun r => (r, none)
 
 /-- the unary / power forms -/
 inductive UnOp
